@@ -78,6 +78,7 @@ func newBndEngine(w *World) *bndEngine {
 	e.fieldFacts = map[string]int64{
 		"BackendHandler.numWorkers":        1, // max-workers >= 1
 		"DatagramReceiver.receiveBatchSize": 1, // receive-batch-size >= 1
+		"MetricPool.estimatedTags":          0, // estimated-tags >= 0 (a negative value aborts on the first metric of any content)
 	}
 	return e
 }
@@ -472,12 +473,130 @@ func (p *prover) capturedCell(ld *ssa.UnOp) (*prover, ssa.Value, bool) {
 	return q, st.Val, true
 }
 
+// monotoneCell: ld reads a local int variable (possibly captured by closures) whose every
+// assignment, in the declaring function and in all of its closures, is either a non-negative
+// constant or <same variable> + <positive constant>.  Such a variable is never negative
+// (lemma L12; overflow would need 2^63 increments).
+func monotoneCell(ld *ssa.UnOp) bool {
+	var cell *ssa.Alloc
+	var owner *ssa.Function
+	name := ""
+	switch a := ld.X.(type) {
+	case *ssa.Alloc:
+		cell, owner = a, a.Parent()
+	case *ssa.FreeVar:
+		fn := a.Parent()
+		owner = fn.Parent()
+		if owner == nil {
+			return false
+		}
+		idx := -1
+		for i, f := range fn.FreeVars {
+			if f == a {
+				idx = i
+			}
+		}
+		eachInstr(owner, func(in ssa.Instruction) {
+			if mc, ok := in.(*ssa.MakeClosure); ok && mc.Fn == ssa.Value(fn) && idx >= 0 && idx < len(mc.Bindings) {
+				if al, ok := mc.Bindings[idx].(*ssa.Alloc); ok {
+					cell = al
+				}
+			}
+		})
+	}
+	if cell == nil || !isIntType(derefType(cell.Type())) {
+		return false
+	}
+	name = cell.Comment
+	// the cell's address must only be loaded, stored to, or bound into closures
+	for _, r := range referrers(cell) {
+		switch r := r.(type) {
+		case *ssa.UnOp, *ssa.MakeClosure, *ssa.DebugRef:
+		case *ssa.Store:
+			if r.Addr != ssa.Value(cell) {
+				return false
+			}
+		default:
+			return false
+		}
+	}
+	okStore := func(st *ssa.Store, self func(v ssa.Value) bool) bool {
+		if n, isC := constInt(st.Val); isC {
+			return n >= 0
+		}
+		if b, ok := st.Val.(*ssa.BinOp); ok && b.Op == token.ADD {
+			if l, ok := b.X.(*ssa.UnOp); ok && l.Op == token.MUL && self(l.X) {
+				if n, isC := constInt(b.Y); isC && n > 0 {
+					return true
+				}
+			}
+		}
+		return false
+	}
+	good, nStores := true, 0
+	for _, f := range WithAnon(owner) {
+		// which values denote the cell inside f
+		self := func(v ssa.Value) bool {
+			if v == ssa.Value(cell) {
+				return true
+			}
+			if fv, ok := v.(*ssa.FreeVar); ok && fv.Name() == name && fv.Parent() == f {
+				// bound to cell? (a same-named variable of another scope would be a different binding)
+				idx := -1
+				for i, x := range f.FreeVars {
+					if x == fv {
+						idx = i
+					}
+				}
+				bound := false
+				for _, g := range WithAnon(owner) {
+					eachInstr(g, func(in ssa.Instruction) {
+						if mc, ok := in.(*ssa.MakeClosure); ok && mc.Fn == ssa.Value(f) && idx >= 0 && idx < len(mc.Bindings) {
+							b := mc.Bindings[idx]
+							if b == ssa.Value(cell) {
+								bound = true
+							} else if fv2, ok := b.(*ssa.FreeVar); ok && fv2.Name() == name {
+								bound = true
+							}
+						}
+					})
+				}
+				return bound
+			}
+			return false
+		}
+		eachInstr(f, func(in ssa.Instruction) {
+			if st, ok := in.(*ssa.Store); ok && self(st.Addr) {
+				nStores++
+				if !okStore(st, self) {
+					good = false
+				}
+			}
+		})
+	}
+	return good && nStores > 0
+}
+
 func (p *prover) linLoad(x *ssa.UnOp) linExpr {
 	if q, sv, ok := p.capturedCell(x); ok && isIntType(x.Type()) {
 		r := q.lin(sv)
 		p.facts = q.facts
 		return r
 	}
+	if isIntType(x.Type()) && monotoneCell(x) {
+		kk := p.valKey(x)
+		if !p.defined[kk+"#mono"] {
+			p.defined[kk+"#mono"] = true
+			p.used["lemma L12: a local counter whose only assignments are a non-negative constant and itself plus a positive constant is never negative (overflow needs 2^63 increments)"] = true
+		}
+		r := p.linLoadPlain(x)
+		p.add(constraint{r, "L12 monotone counter >= 0"})
+		return r
+	}
+	return p.linLoadPlain(x)
+}
+
+func (p *prover) linLoadPlain(x *ssa.UnOp) linExpr {
 	k, ok := p.memKey(x)
 	if !ok {
 		kk := p.valKey(x)
